@@ -290,6 +290,16 @@ class InlinePass(ir.passes.InPlacePass):
         # * Count the number of times each function is called in the graph.
         #   This is used for disambiguating names of values in the inlined functions.
         # * And identify names of values that are used in the graph.
+        for subgraph in graph.subgraphs():
+            # Names defined in nested subgraphs must not be shadowed by inlined values
+            for input in subgraph.inputs:
+                if input.name is not None:
+                    self._used_value_names.add(input.name)
+            self._used_value_names.update(subgraph.initializers)
+            for node in subgraph:
+                for output in node.outputs:
+                    if output.name is not None:
+                        self._used_value_names.add(output.name)
         id_count: dict[ir.OperatorIdentifier, int] = defaultdict(int)
         for node in graph:
             if node.name:
